@@ -1,6 +1,7 @@
 """C15 - queries are pure; optimize changes only vertex poses (engine E2: BFS to fixpoint over the query alphabet)."""
 import collections
 import copy
+import math
 import os
 import shutil
 import tempfile
@@ -25,7 +26,7 @@ META = {
     "state); optimize changes nothing but poses of non-fixed vertices (+ first vertex's flag when asked) and does exactly what it does on a fresh twin (no hidden state between calls). non-trivial = transition whose query returns a non-constant value",
     "assumptions": ["observable state = poses, estimates, information, offsets, ids, fixed flags, list orders, parameters (bitwise); everything else reachable is cache and only refines state identity"],
     "required_classes": ["shared_objects", "converging_run_transition", "fixpoint_reached", "numeric_jacobian_query", "stored_plus_pi", "parallel_edges", "optimize_transition", "inplace_edit_transition", "export_query", "pose_operator_query"],
-    "bounds": {"quick": "8 graphs (SE2, SE3, R2, R3, mixed worlds; stored angle +pi; w<0; parallel edges; numeric custom edges) x fixpoint", "thorough": "quick + every type multiset of F(3) with a spanning edge multiset (20 graphs) x 2 fixed choices"},
+    "bounds": {"quick": "9 graphs (SE2, SE3, R2, R3, mixed worlds; stored angle +pi; w<0; parallel edges; numeric custom edges) x fixpoint", "thorough": "quick + every type multiset of F(3) with a spanning edge multiset (20 graphs) x 2 fixed choices"},
 }
 
 
@@ -114,6 +115,14 @@ def specs(tier, seed):
     shared3["vertices"][0]["fixed"] = True
     shared3["vertices"][1]["pose"] = list(shared3["edges"][0]["z"])
     out.append(("shared_se3", shared3))
+    # an information matrix that is symmetric only up to round-off (as np.linalg.inv of a covariance gives), and a vertex no edge refers to
+    asym = A.spd(2, seed, "y")
+    asym = [[asym[0][0], math.nextafter(asym[0][1], math.inf)], [asym[1][0], asym[1][1]]]
+    iso = {
+        "vertices": [{"id": 0, "kind": "R2", "pose": [0.5, -0.25], "fixed": True}, {"id": 1, "kind": "R2", "pose": [1.5, 0.75], "fixed": False}, {"id": 2, "kind": "R2", "pose": [-2.0, 3.0], "fixed": False}],
+        "edges": [{"type": "odo", "ids": [0, 1], "z": [0.9, 1.1], "om": asym}, {"type": "numodo", "ids": [1, 0], "z": [-1.0, -0.9], "om": asym}],
+    }
+    out.append(("iso", iso))
     single = {"vertices": [{"id": 5, "kind": "SE2", "pose": [1.0, 2.0, A.ANG_PLUS_PI_SOURCE], "fixed": False}], "edges": [{"type": "numprior", "ids": [5], "z": [0.5, 0.5, 0.5], "om": A.spd(3, seed, "x")}]}
     out.append(("single", single))
     if tier == "thorough":
